@@ -116,6 +116,7 @@ class ScriptedGenerator(np.random.Generator):
         arr = np.arange(a) if np.isscalar(a) else np.asarray(a)
         self._s.seam.choice_calls.append(
             {'stream': self._s.id, 'n': len(arr), 'size': size,
+             'replace': bool(replace),
              'p': None if p is None else [float(x) for x in p]})
         i = self._s.draw('i', size, 'choice', len(arr))
         return arr[i]
@@ -153,6 +154,7 @@ class ScriptedRandomState(np.random.RandomState):
         arr = np.arange(a) if np.isscalar(a) else np.asarray(a)
         self._seam.choice_calls.append(
             {'stream': self._s.id, 'n': len(arr), 'size': size,
+             'replace': bool(replace),
              'p': None if p is None else [float(x) for x in p]})
         i = self._s.draw('i', size, 'g.choice', len(arr))
         return arr[i]
